@@ -261,6 +261,7 @@ Proof.
   - split; [reflexivity | constructor].
   - constructor.
   - intros name x H. vm_compute in H. discriminate.
+  - vm_compute. reflexivity.
   - exists 10%N, [SLet vI [] (XBin RAdd (XVar vI) (XNum n1))], [TSymbol vI; TEquals; TSymbol vI; TPlus; TNumber n1], [TSymbol vI; TEquals; TSymbol vI; TPlus; TNumber n1].
     repeat split; try reflexivity.
     apply LR_last.
@@ -331,6 +332,7 @@ Proof.
   - split; [reflexivity | constructor].
   - constructor.
   - intros name x H. vm_compute in H. discriminate.
+  - vm_compute. reflexivity.
   - exists 10%N, [SGosub 30%N; SPrint [PExpr (XVar vI); PSemi]], [TGosub; TNumber n30; TColon; TPrint; TSymbol vI; TSemicolon],
       [TGosub; TNumber n30; TColon; TPrint; TSymbol vI; TSemicolon].
     split; [reflexivity|]. split; [vm_compute; reflexivity|]. split; [reflexivity|]. split; [reflexivity|].
@@ -397,6 +399,7 @@ Proof.
   - split; [reflexivity | constructor].
   - constructor.
   - intros name x H. vm_compute in H. discriminate.
+  - vm_compute. reflexivity.
   - exists 10%N, [SFor vI (XNum n1) (XNum n5) (Some (XNum n2))],
       [TFor; TSymbol vI; TEquals; TNumber n1; TTo; TNumber n5; TStep; TNumber n2],
       [TFor; TSymbol vI; TEquals; TNumber n1; TTo; TNumber n5; TStep; TNumber n2].
@@ -475,6 +478,7 @@ Proof.
   - split; [reflexivity | constructor].
   - constructor.
   - intros name x H. vm_compute in H. discriminate.
+  - vm_compute. reflexivity.
   - exists 10%N, [SLet vI [] (XBin RAdd (XVar vI) (XNum n1))], [TSymbol vI; TEquals; TSymbol vI; TPlus; TNumber n1], [TSymbol vI; TEquals; TSymbol vI; TPlus; TNumber n1].
     repeat split; try reflexivity.
     apply LR_last.
@@ -561,6 +565,7 @@ Proof.
   - split; [reflexivity | constructor].
   - constructor.
   - intros name x H. vm_compute in H. discriminate.
+  - vm_compute. reflexivity.
   - exists 10%N, [SLet vI [] (XBin RAdd (XVar vI) (XNum n1))], [TSymbol vI; TEquals; TSymbol vI; TPlus; TNumber n1], [TSymbol vI; TEquals; TSymbol vI; TPlus; TNumber n1].
     repeat split; try reflexivity.
     apply LR_last.
